@@ -1,5 +1,6 @@
 #include "seams.h"
 
+#include <sys/auxv.h>
 #include <sys/syscall.h>
 #include <sys/time.h>
 #include <time.h>
@@ -386,8 +387,10 @@ const FsNode* fs_resolve(const std::string& path, int* err) {
 }
 
 ClockState clk;
+PrivState priv;
 void env_reset() {
-  clk.active = false; clk.now = 1790000000; clk.reads = 0;
+  clk.active = false; clk.now = 1790000000; clk.skew = 0; clk.reads = 0;
+  priv.active = false; priv.secure = false; priv.reads = 0;
   env.active = false;
   env.vars.clear();
   env.reads.clear();
@@ -495,7 +498,8 @@ int clock_gettime(clockid_t id, struct timespec* ts) noexcept {
   if (clk.active && ts != nullptr &&
       (id == CLOCK_REALTIME || id == CLOCK_REALTIME_COARSE || id == CLOCK_MONOTONIC || id == CLOCK_MONOTONIC_COARSE || id == CLOCK_MONOTONIC_RAW || id == CLOCK_BOOTTIME || id == CLOCK_TAI)) {
     clk.reads++;
-    ts->tv_sec = static_cast<time_t>(clk.now);
+    const bool realtime = (id == CLOCK_REALTIME || id == CLOCK_REALTIME_COARSE || id == CLOCK_TAI);
+    ts->tv_sec = static_cast<time_t>(clk.now + (realtime ? clk.skew : 0));
     ts->tv_nsec = 123456789;
     return 0;
   }
@@ -504,7 +508,7 @@ int clock_gettime(clockid_t id, struct timespec* ts) noexcept {
 int gettimeofday(struct timeval* tv, void* tz) noexcept {
   using namespace sim;
   (void)tz;
-  if (clk.active && tv != nullptr) { clk.reads++; tv->tv_sec = static_cast<time_t>(clk.now); tv->tv_usec = 123456; return 0; }
+  if (clk.active && tv != nullptr) { clk.reads++; tv->tv_sec = static_cast<time_t>(clk.now + clk.skew); tv->tv_usec = 123456; return 0; }
   struct timespec ts;
   int r = real_clock_gettime(CLOCK_REALTIME, &ts);
   if (tv) { tv->tv_sec = ts.tv_sec; tv->tv_usec = ts.tv_nsec / 1000; }
@@ -513,10 +517,31 @@ int gettimeofday(struct timeval* tv, void* tz) noexcept {
 time_t time(time_t* out) noexcept {
   using namespace sim;
   time_t v;
-  if (clk.active) { clk.reads++; v = static_cast<time_t>(clk.now); }
+  if (clk.active) { clk.reads++; v = static_cast<time_t>(clk.now + clk.skew); }
   else { struct timespec ts; real_clock_gettime(CLOCK_REALTIME, &ts); v = ts.tv_sec; }
   if (out) *out = v;
   return v;
+}
+
+// Credentials.
+unsigned long __real_getauxval(unsigned long type);
+unsigned long __wrap_getauxval(unsigned long type) {
+  using namespace sim;
+  if (priv.active && type == AT_SECURE) { priv.reads++; return priv.secure ? 1 : 0; }
+  return __real_getauxval(type);
+}
+uid_t __real_getuid(void); uid_t __real_geteuid(void); gid_t __real_getgid(void); gid_t __real_getegid(void);
+uid_t __wrap_getuid(void) { using namespace sim; if (priv.active) { priv.reads++; return 1000; } return __real_getuid(); }
+uid_t __wrap_geteuid(void) { using namespace sim; if (priv.active) { priv.reads++; return priv.secure ? 0 : 1000; } return __real_geteuid(); }
+gid_t __wrap_getgid(void) { using namespace sim; if (priv.active) { priv.reads++; return 1000; } return __real_getgid(); }
+gid_t __wrap_getegid(void) { using namespace sim; if (priv.active) { priv.reads++; return priv.secure ? 0 : 1000; } return __real_getegid(); }
+char* __wrap_getenv(const char* name);
+char* __real_secure_getenv(const char* name);
+char* __wrap_secure_getenv(const char* name) {
+  using namespace sim;
+  if (!env.active && !g_premain.active) return __real_secure_getenv(name);
+  if (priv.active && priv.secure) { priv.reads++; HarnessScope hs; env.reads.push_back(name); return nullptr; }   // what glibc does in a set-ID process
+  return __wrap_getenv(name);
 }
 
 char* __wrap_getenv(const char* name) {
